@@ -67,6 +67,7 @@ def eval_tt(tt, c, X, Y, body, head, red, W=None):
             return u * u.sum()
         if o == "adds": return B(t["a"]) + 1.5
         if o == "matvec": return A @ B(t["a"])
+        if o == "vecmat": return B(t["a"]) @ A
         if o == "mprod": return B(t["a"]).mprod(c.Q, 0)
         a, b = B(t["a"]), B(t["b"])
         return a + b if o == "add" else (a - b if o == "sub" else a * b)
@@ -153,6 +154,7 @@ def eval_dense(c, xl, yl, body, head, red, wl=None):
             return u * u.sum()
         if o == "adds": return B(t["a"]) + 1.5
         if o == "matvec": return (Ad.reshape(n, n) @ B(t["a"]).reshape(-1)).reshape(N)
+        if o == "vecmat": return (B(t["a"]).reshape(-1) @ Ad.reshape(n, n)).reshape(N)
         if o == "mprod": return torch.tensordot(c.Q, B(t["a"]), dims=([1], [0]))
         a, b = B(t["a"]), B(t["b"])
         return a + b if o == "add" else (a - b if o == "sub" else a * b)
